@@ -100,7 +100,12 @@ pub enum EvKind {
     /// C17: a control message sent with arbitrary fields
     StreamSendRaw { call: CallId, subscription: String, max_out: i64, max_bytes: i64, acks: Vec<String>, mod_ids: Vec<String>, mod_secs: Vec<i32> },
     /// quiescent point: nothing runnable; stats of every known subscription name
-    Qp { stats: Vec<SubStat> },
+    Qp {
+        stats: Vec<SubStat>,
+        /// tasks the harness currently holds at a stall point (cfg(deltio_verif) hook)
+        #[serde(default)]
+        stalled: usize,
+    },
     /// the harness moved the clock (Advance / GoTo)
     Clock,
     /// end of the generated history, after the one-hour horizon: calls still pending
